@@ -1,4 +1,5 @@
 import Sm9.Proofs.Consts
+import Sm9.Proofs.MillerFrobenius
 /-!
 # C02 — Pairing values equal the SM9 R-ate pairing, byte for byte
 
@@ -6,9 +7,18 @@ Theorems: the loop constants are the signed-digit and binary expansions of 6t+2 
 SM9 parameter t; the serialisation order is c2‖c1‖c0 with the high coefficient first at
 every level; and the published test vector of the standard's key-agreement example
 (inputs and expected value as in `pairings.rs::test_pairing`) is reproduced by **both**
-model pairings by kernel evaluation.  Equality with the textbook R-ate pairing on the
-whole domain is decided by the three-way correspondence against `Sm9.Spec.rate`
-(partial; DESIGN.md §6 C02).
+model pairings by kernel evaluation.
+
+**`fast_pairing` and the prepared pairing are the R-ate pairing on the whole domain**
+(`fast_pairing_is_rate_pairing`, `prepared_pairing_is_rate_pairing`): for every `P ≠ O` on
+`E(Fq)` and every `Q ≠ O` in `⟨P2⟩`, in any Jacobian representatives, the value is
+`specMiller(P, Q)^((q^12−1)/r)` where `Miller.specMiller` is the textbook definition over
+Mathlib's Weierstrass point group of the twist: `f_{6t+2,Q}(P)` by the double-and-add chain with
+line values `y_P − λ·x_P·w⁻¹ + (λ·x_T − y_T)·w⁻³`, times `l_{[6t+2]Q, π(Q)}(P)` and
+`l_{[6t+2]Q+π(Q), −π²(Q)}(P)`, `π` the `q`-Frobenius transported to the twist.
+For `pairing()` (the numerator/denominator Miller loop over the signed-digit chain) equality
+with the same function is decided by the three-way correspondence against `Sm9.Spec.rate`
+(partial: the chain-independence of Miller functions needs divisor theory; DESIGN.md §6 C02).
 -/
 namespace Sm9.C02
 
@@ -33,5 +43,52 @@ def kaExpected : Fq12 :=
 
 theorem known_answer_pairing : Api.pairing kaP kaQ = .ok kaExpected := by decide +kernel
 theorem known_answer_fast_pairing : Api.fast_pairing kaP kaQ = .ok kaExpected := by decide +kernel
+
+/-! ## the prepared Miller loop is the textbook Miller function of the R-ate pairing -/
+open Miller in
+/-- the prepared Miller loop (`G2Prepared::from` then `G2Prepared::miller_loop`) returns the textbook
+    Miller function times a non-zero element of the subfield `Fq2` -/
+theorem prepared_miller_is_textbook (xP yP : Fq) (xQ yQ : Fq2) (hQ : yQ * yQ = xQ * xQ * xQ + b2)
+    (k : Nat) (hk : twPt (xQ, yQ) = k • twPt genXY) :
+    ∃ κ : Fq2, κ ≠ 0 ∧
+      (do let pr ← G2Prepared.from_ (⟨xQ, yQ, 1⟩ : G2); pr.miller_loop (⟨xP, yP, 1⟩ : G1))
+        = .ok (Fq12.ofFq2 κ * specMiller xP yP xQ yQ) :=
+  prepared_miller_eq_spec_G2 xP yP xQ yQ hQ k hk
+open Miller in
+/-- such a factor is removed by the final exponentiation: `(q²−1) ∣ (q¹²−1)/r` -/
+theorem subfield_factor_removed (κ : Fq2) (hκ : κ ≠ 0) : Fq12.ofFq2 κ ^ ((q ^ 12 - 1) / r) = 1 :=
+  ofFq2_pow_final κ hκ
+open Miller in
+/-- **`fast_pairing` is the SM9 R-ate pairing** on all of `(E(Fq) ∖ O) × (⟨P2⟩ ∖ O)`, for any
+    Jacobian representatives -/
+theorem fast_pairing_is_rate_pairing (P : G1) (Q : G2) (hPz : P.z ≠ 0) (hPv : G1.Valid P) (hQz : Q.z ≠ 0)
+    (hQv : G2.Valid Q) (k : Nat) (hk : G2.toAff Q = k • G2.toAff (G.one : G2)) :
+    Api.fast_pairing P Q
+      = .ok (specMiller (P.x / P.z ^ 2) (P.y / P.z ^ 3) (Q.x / Q.z ^ 2) (Q.y / Q.z ^ 3) ^ ((q ^ 12 - 1) / r)) :=
+  api_fast_pairing_eq_spec_G2 P Q hPz hPv hQz hQv k hk
+open Miller in
+/-- the same for `G2Prepared::from(Q).pairing(&P)` -/
+theorem prepared_pairing_is_rate_pairing (P : G1) (Q : G2) (hPz : P.z ≠ 0) (hPv : G1.Valid P) (hQz : Q.z ≠ 0)
+    (hQv : G2.Valid Q) (k : Nat) (hk : G2.toAff Q = k • G2.toAff (G.one : G2)) :
+    (do let pr ← Api.prepare Q; Api.preparedPairing pr P)
+      = .ok (specMiller (P.x / P.z ^ 2) (P.y / P.z ^ 3) (Q.x / Q.z ^ 2) (Q.y / Q.z ^ 3) ^ ((q ^ 12 - 1) / r)) :=
+  (api_prepared_eq_fast P Q).trans (api_fast_pairing_eq_spec_G2 P Q hPz hPv hQz hQv k hk)
+open Miller in
+/-- the textbook line value in the tower basis is `y_P − λ·x_P·w⁻¹ + (λ·x_T − y_T)·w⁻³` -/
+theorem line_value_formula (xT yT lam : Fq2) (xP yP : Fq) :
+    lineSpec xT yT lam xP yP
+      = Fq12.ofFq yP - Fq12.ofFq2 lam * Fq12.ofFq xP * Fq12.w⁻¹ + Fq12.ofFq2 (lam * xT - yT) * (Fq12.w ^ 3)⁻¹ :=
+  lineSpec_eq_w xT yT lam xP yP
+open Miller in
+/-- the Frobenius used for the two correction lines is the `q`-power map transported to the twist -/
+theorem frobenius_on_twist (p : Fq2 × Fq2) :
+    Fq12.ofFq2 (frobTwist p).1 * (Fq12.w ^ 2)⁻¹ = (Fq12.ofFq2 p.1 * (Fq12.w ^ 2)⁻¹) ^ q ∧
+    Fq12.ofFq2 (frobTwist p).2 * (Fq12.w ^ 3)⁻¹ = (Fq12.ofFq2 p.2 * (Fq12.w ^ 3)⁻¹) ^ q :=
+  ⟨frobTwist_untwist_x p, frobTwist_untwist_y p⟩
+open Miller in
+/-- the hypotheses are satisfiable: `Q = P2` (`k = 1`), any affine `P` with `y_P ≠ 0` -/
+example (xP yP : Fq) (hyP : yP ≠ 0) :
+    Pairings.fast_pairing (⟨xP, yP, 1⟩ : G1) (G.one : G2)
+      = .ok (specMiller xP yP genXY.1 genXY.2 ^ ((q ^ 12 - 1) / r)) := fast_pairing_generator xP yP hyP
 
 end Sm9.C02
